@@ -10,6 +10,7 @@ import (
 )
 
 func pt(addr interface{}) { vsched.Point(vsched.KAtomic, addr, nil) }
+func ld(addr interface{}) { vsched.Point(vsched.KAtomicLoad, addr, nil) }
 
 type Value = atomic.Value
 
@@ -23,10 +24,10 @@ func AddUint64(addr *uint64, delta uint64) uint64 {
 	pt(addr)
 	return atomic.AddUint64(addr, delta)
 }
-func LoadInt32(addr *int32) int32              { pt(addr); return atomic.LoadInt32(addr) }
-func LoadInt64(addr *int64) int64              { pt(addr); return atomic.LoadInt64(addr) }
-func LoadUint32(addr *uint32) uint32           { pt(addr); return atomic.LoadUint32(addr) }
-func LoadUint64(addr *uint64) uint64           { pt(addr); return atomic.LoadUint64(addr) }
+func LoadInt32(addr *int32) int32              { ld(addr); return atomic.LoadInt32(addr) }
+func LoadInt64(addr *int64) int64              { ld(addr); return atomic.LoadInt64(addr) }
+func LoadUint32(addr *uint32) uint32           { ld(addr); return atomic.LoadUint32(addr) }
+func LoadUint64(addr *uint64) uint64           { ld(addr); return atomic.LoadUint64(addr) }
 func StoreInt32(addr *int32, v int32)          { pt(addr); atomic.StoreInt32(addr, v) }
 func StoreInt64(addr *int64, v int64)          { pt(addr); atomic.StoreInt64(addr, v) }
 func StoreUint32(addr *uint32, v uint32)       { pt(addr); atomic.StoreUint32(addr, v) }
